@@ -16,6 +16,7 @@ import (
 	"verif/internal/c13"
 	"verif/internal/c14"
 	"verif/internal/c15"
+	"verif/internal/c16"
 	"verif/internal/c17"
 	"verif/internal/c19"
 )
@@ -33,6 +34,7 @@ func init() {
 	monitors["C13"] = c13.Run
 	monitors["C14"] = c14.Run
 	monitors["C15"] = c15.Run
+	monitors["C16"] = c16.Run
 	monitors["C17"] = c17.Run
 	monitors["C19"] = c19.Run
 }
